@@ -7,18 +7,23 @@ From JB Require Import Constants Bytes Num Value Codec TreeOps Path.
 Open Scope N_scope.
 
 (* convert_index / convert_slice (mathematical integers; i32 overflow is treated in I32.v) *)
+(* the `Index::LastIndex(idx) => ...` arms of convert_index and of convert_slice (start, end), generated from the source *)
 Definition resolve_index (i : index) (len : Z) : Z :=
-  match i with IIndex z => z | ILast z => (len + z - 1)%Z end.
+  match i with IIndex z => z | ILast z => CI_LAST z len end.
+Definition resolve_start (i : index) (len : Z) : Z :=
+  match i with IIndex z => z | ILast z => CS_START_LAST z len end.
+Definition resolve_end (i : index) (len : Z) : Z :=
+  match i with IIndex z => z | ILast z => CS_END_LAST z len end.
 Fixpoint range_from (start : nat) (count : nat) : list nat :=
   match count with O => [] | S c => start :: range_from (S start) c end.
 Definition index_positions (len : Z) (a : array_index) : list nat :=
   match a with
   | AIndex i => let j := resolve_index i len in
-                if ((0 <=? j) && (j <? len))%Z then [Z.to_nat j] else []
+                if CI_INRANGE j len then [Z.to_nat j] else []
   | ASlice s e =>
-      let s' := resolve_index s len in let e' := resolve_index e len in
-      if ((e' <? s') || (len <=? s') || (e' <? 0))%Z then []
-      else let lo := Z.max 0 s' in let hi := Z.min (len - 1) e' in
+      let s' := resolve_start s len in let e' := resolve_end e len in
+      if CS_EMPTY s' e' len then []
+      else let lo := CS_LO s' in let hi := CS_HI e' len in
            range_from (Z.to_nat lo) (Z.to_nat (hi - lo + 1))
   end.
 Definition select_indices (l : list value) (ixs : list array_index) : list value :=
